@@ -541,6 +541,10 @@ fn builtins_job(viols: &mut Vec<Value>) -> Value {
     for (a, b, c) in [("alphanumeric", "alphabetic", "ascii_digit"), ("alphabetic", "lowercase", "uppercase"), ("ascii_alphanumeric", "ascii_digit", "ascii_uppercase"), ("XID_Continue", "XID_Start", "numeric")] {
         exprs.push((format!("{a}#{b}#{c}"), re::diff(re::diff(re::builtin(a), re::builtin(b)), re::builtin(c))));
     }
+    for (a, b) in [("alphabetic", "numeric"), ("numeric", "alphabetic"), ("uppercase", "ascii_digit")] {
+        exprs.push((format!("({a}|{b})#[a-z]"), re::diff(re::alt(re::builtin(a), re::builtin(b)), re::set(&[('a', 'z')]))));
+        exprs.push((format!("({a}|{b})#ascii_alphanumeric"), re::diff(re::alt(re::builtin(a), re::builtin(b)), re::builtin("ascii_alphanumeric"))));
+    }
     for n in ["alphabetic", "uppercase", "XID_Start", "ascii_hexdigit"] {
         exprs.push((format!("{n}#[a-z]"), re::diff(re::builtin(n), re::set(&[('a', 'z')]))));
         exprs.push((format!("_#{n}"), re::diff(Re::Any, re::builtin(n))));
